@@ -509,13 +509,13 @@ for _p in ['C01', 'C02', 'C07', 'C12', 'C14', 'C17']:
     ADDENDA[_p] = ADDENDA.get(_p, '') + _LARGE
 _LONG = {
     'C02': ' For an operand of 31-400 segments the middle of every segment and every vertex is queried once (coordinate_position, intersects, contains).',
-    'C04': ' One case in 300: unary_union of 60-150 grid cells (apart or edge-sharing, a quarter with a hole, optionally inside the hole of a frame), and clip of a track of 17-1030 coordinates zig-zagging across a comb / plate / star; one case in 60: operands with many rings or members against derived partners.',
-    'C05': ' One case in 400: a ring of 17-1030 coordinates (star, or rectangle with a vertex at every lattice step) as shell, as hole of a frame, or as third member of a MultiPolygon.',
+    'C04': ' One case in 500: unary_union of 60-150 grid cells (apart or edge-sharing, a quarter with a hole, optionally inside the hole of a frame), and clip of a track of 17-1030 coordinates zig-zagging across a comb / plate / star; one case in 120: operands with many rings or members against derived partners.',
+    'C05': ' One case in 1000: a ring of 17-1030 coordinates (star, or rectangle with a vertex at every lattice step) as shell, as hole of a frame, or as third member of a MultiPolygon.',
     'C06': ' The many-coordinates stratum includes polygons whose shell or hole has 17-1030 coordinates and zig-zag line strings of that length.',
-    'C07': ' One case in 200: 17-100 small members on a grid (MultiPolygon / MultiLineString / MultiPoint / GeometryCollection) against a street between two rows, a short segment in a gap or a point; or an operand of realistic size with a derived partner.',
+    'C07': ' One case in 400: 17-100 small members on a grid (MultiPolygon / MultiLineString / MultiPoint / GeometryCollection) against a street between two rows, a short segment in a gap or a point; or an operand of realistic size with a derived partner.',
     'C08': ' minimum_rotated_rect: a miss of at most 2^20 u E on an input whose exact hull is thinner than 2^-30 of its length is the recorded finding mrr_rotates_about_centroid_of_thin_hull.',
     'C14': ' Rings of realistic length also carry planted defects: a spike (out and back, vertical / horizontal / oblique), a small loop returning to a vertex, a moved vertex.',
-    'C15': ' One open line in 200 is a track of 17-1030 segments.',
+    'C15': ' One open line in 500 is a track of 17-1030 segments.',
     'C18': ' One case in 500: rings of 17-1024 open coordinates in an exactly full or a roomy Vec through ten closing entry points (Polygon::new exterior / interior, exterior_mut, try_exterior_mut Ok / Err, interiors_mut, interiors_push x2, LineString::close, clone().close).',
     'C19': ' One case in 150: components of 17-1030 coordinates (LineString, MultiPoint, ring as shell / hole, member of a MultiLineString or collection) whose extreme coordinates sit anywhere, the very last one included.',
     'C20': ' Results with 70 and 150+ members (unary_union and the four operations on two shifted grids of squares) must keep their member order.',
